@@ -542,6 +542,44 @@ def run_tiny_pad_const(ctx):
             ctx.violation('ResizingOperator', cfg, 'raises:' + type(e).__name__, message=str(e)[:200])
 
 
+def run_unsafe_pad_const(ctx):
+    """A padding constant that cannot be represented in the output type (1.5 / 2.0 into integers, 1+2j into floats, 300 into
+    int8): refused with ValueError exactly when some axis grows (there is a remainder to fill); when no axis grows there is
+    no remainder, the constant is not used and the result is the overlapping block - as the implementation's own guard says."""
+    rng = ctx.rng('unsafe-pad-const')
+    idx = 95000
+    for (dt, const), (shp, newshp) in itertools.product(
+            [('int64', 1.5), ('int8', 2.0), ('int8', 300), ('float64', 1 + 2j), ('float32', 2j), ('int64', 1 + 0j)],
+            [((2, 3), (3, 4)), ((2, 3), (2, 2)), ((2, 3), (1, 4)), ((5,), (3,)), ((5,), (5,)), ((4,), (7,))]):
+        idx += 1
+        if not ctx.mine(idx):
+            continue
+        grows = any(n > o for n, o in zip(newshp, shp))
+        kind = type(const).__name__
+        cfg = 'constant;unsafe-pad_const;%s-into-%s;%s' % (kind, np.dtype(dt).kind, 'some-axis-grows' if grows else 'no-axis-grows')
+        ctx.case('unsafe-pad-const;' + cfg, (shp, newshp))
+        ctx.ev('resize-reference')
+        arr = rng.integers(-5, 6, size=shp).astype(dt)
+        arr0 = arr.copy()
+        try:
+            res = resize_array(arr, newshp, pad_mode='constant', pad_const=const)
+        except ValueError:
+            if not grows:
+                ctx.violation('resize_array', cfg, 'raises:ValueError', const=repr(const), shp=shp, newshp=newshp)
+            continue
+        except Exception as e:
+            ctx.violation('resize_array', cfg, 'raises:' + type(e).__name__, message=str(e)[:200], const=repr(const), shp=shp, newshp=newshp)
+            continue
+        if grows:
+            ctx.violation('resize_array', cfg, 'bad-input-accepted', const=repr(const), got=np.asarray(res).ravel()[:8].tolist())
+            continue
+        ref = arr0[tuple(slice(0, n) for n in newshp)]
+        if res.dtype != arr0.dtype or not np.array_equal(res, ref):
+            ctx.violation('resize_array', cfg, 'value!=overlapping-block', dtype=str(res.dtype))
+        if not np.array_equal(arr, arr0):
+            ctx.violation('resize_array', cfg, 'input-modified')
+
+
 def run_adjoint_wider_out(ctx):
     """resize_array(..., direction='adjoint', out=<array of a wider type than the input>): documented as legal; the folding of
     the padded part is accumulated in the type of ``out`` - equal to the transpose applied in that type."""
@@ -684,6 +722,7 @@ def run(ctx):
     run_explicit_range(ctx)
     run_offset_refusal(ctx)
     run_tiny_pad_const(ctx)
+    run_unsafe_pad_const(ctx)
     run_adjoint_wider_out(ctx)
     run_foreign_range(ctx)
     run_dtype_change(ctx)
